@@ -92,6 +92,15 @@ func c07Bodies() []c07Body {
 			return b
 		}},
 		{"compressed-flag-no-header", "unjudged", func(p Proto, kind Kind, js bool) []byte { return refwire.Envelope(1, Gzip(c06ValidMsg(js))) }},
+		// flagged compressed, but the payload is the plain message: malformed whatever the encoding
+		// header says (no algorithm negotiated: nothing to inflate with; gzip: not a gzip stream)
+		{"compressed-flag-plain-payload", "error", func(p Proto, kind Kind, js bool) []byte { return refwire.Envelope(1, c06ValidMsg(js)) }},
+		{"valid-then-compressed-flag-plain-payload", "error", func(p Proto, kind Kind, js bool) []byte {
+			if !kind.ClientStreams() { // single-request kinds never look at a second envelope (known finding of its own)
+				return refwire.Envelope(1, c06ValidMsg(js))
+			}
+			return append(refwire.Envelope(0, c06ValidMsg(js)), refwire.Envelope(1, c06ValidMsg(js))...)
+		}},
 		{"second-message", "unjudged", func(p Proto, kind Kind, js bool) []byte {
 			m := refwire.Envelope(0, c06ValidMsg(js))
 			return append(append([]byte{}, m...), m...)
